@@ -31,20 +31,66 @@ structure IdxInv (U : Key → Prop) (s : Col) : Prop where
     ∃ t ∈ s.current :: rest, t.Has k.pre a
   prog0 : s.older = [] → s.progress = 0
 
+/-- continuation slots of the live multi-slot values of a tier -/
+def Col.owned (s : Col) (tier : Nat) : List Nat := ownedOf (s.tier tier).chains
+
+/-- the slots below the fill mark that are not the head of a value: the free list, then the
+continuation slots of the live chains -/
+def Col.dead (s : Col) (tier : Nat) : List Nat := (s.tier tier).free ++ s.owned tier
+
+/-- SlotInv of one value table `T` of tier `tier`; `tl` = stored tail by address. -/
+structure TierInv (tl : Nat → Option Nat) (tier : Nat) (T : Tier) : Prop where
+  fresh : ∀ off, tier < 256 → off < 2 ^ 56 →
+    (off ∈ T.free ++ ownedOf T.chains ∨ T.filled ≤ off) → tl (Address.new off tier) = none
+  nodup : (T.free ++ ownedOf T.chains).Nodup
+  range : ∀ off, off ∈ T.free ++ ownedOf T.chains → 1 ≤ off ∧ off < T.filled
+  filled : tier < 256 → 1 ≤ T.filled ∧ T.filled ≤ 2 ^ 56
+  cover : ∀ off, tier < 256 → off < 2 ^ 56 → 1 ≤ off → off < T.filled →
+    off ∈ T.free ++ ownedOf T.chains ∨ (tl (Address.new off tier)).isSome = true
+  heads : (T.chains.map (·.1)).Nodup
+  headLive : ∀ h, tier < 256 → h ∈ T.chains.map (·.1) →
+    1 ≤ h ∧ h < T.filled ∧ (tl (Address.new h tier)).isSome = true
+
 /-- SlotInv on the abstract value tables. -/
 structure SlotInv (s : Col) : Prop where
-  /-- free-list members and slots at or above the fill mark hold no value -/
-  fresh : ∀ tier off, tier < 256 → off < 2 ^ 56 →
-    (off ∈ (s.tier tier).free ∨ (s.tier tier).filled ≤ off) → s.tailAt (Address.new off tier) = none
+  tiers : ∀ tier, TierInv s.tailAt tier (s.tier tier)
   /-- live addresses are (tier, offset) pairs below the fill mark -/
   addr : ∀ a tl, s.tailAt a = some tl →
     ∃ tier off, tier < 256 ∧ 1 ≤ off ∧ off < (s.tier tier).filled ∧ a = Address.new off tier
-  nodup : ∀ tier, (s.tier tier).free.Nodup
-  range : ∀ tier off, off ∈ (s.tier tier).free → 1 ≤ off ∧ off < (s.tier tier).filled
-  filled : ∀ tier, tier < 256 → 1 ≤ (s.tier tier).filled ∧ (s.tier tier).filled ≤ 2 ^ 56
-  /-- no leaked slot: below the fill mark a slot is free or live -/
-  cover : ∀ tier off, tier < 256 → off < 2 ^ 56 → 1 ≤ off → off < (s.tier tier).filled →
-    off ∈ (s.tier tier).free ∨ (s.tailAt (Address.new off tier)).isSome = true
+
+/-- free-list members, continuation slots and slots at or above the fill mark hold no value -/
+theorem SlotInv.fresh {s : Col} (h : SlotInv s) : ∀ tier off, tier < 256 → off < 2 ^ 56 →
+    (off ∈ s.dead tier ∨ (s.tier tier).filled ≤ off) → s.tailAt (Address.new off tier) = none :=
+  fun tier off => (h.tiers tier).fresh off
+
+/-- no slot is twice on the free list, in two chains, or both free and part of a chain -/
+theorem SlotInv.nodup {s : Col} (h : SlotInv s) : ∀ tier, (s.dead tier).Nodup :=
+  fun tier => (h.tiers tier).nodup
+
+theorem SlotInv.range {s : Col} (h : SlotInv s) : ∀ tier off, off ∈ s.dead tier →
+    1 ≤ off ∧ off < (s.tier tier).filled :=
+  fun tier off => (h.tiers tier).range off
+
+theorem SlotInv.filled {s : Col} (h : SlotInv s) : ∀ tier, tier < 256 →
+    1 ≤ (s.tier tier).filled ∧ (s.tier tier).filled ≤ 2 ^ 56 :=
+  fun tier => (h.tiers tier).filled
+
+/-- no leaked slot: below the fill mark a slot is free, a continuation slot of a live chain, or
+the head slot of a live value -/
+theorem SlotInv.cover {s : Col} (h : SlotInv s) : ∀ tier off, tier < 256 → off < 2 ^ 56 →
+    1 ≤ off → off < (s.tier tier).filled →
+    off ∈ s.dead tier ∨ (s.tailAt (Address.new off tier)).isSome = true :=
+  fun tier off => (h.tiers tier).cover off
+
+/-- one chain per head slot -/
+theorem SlotInv.heads {s : Col} (h : SlotInv s) : ∀ tier, ((s.tier tier).chains.map (·.1)).Nodup :=
+  fun tier => (h.tiers tier).heads
+
+/-- no orphan chain: the head of every recorded chain is a live value -/
+theorem SlotInv.headLive {s : Col} (h : SlotInv s) : ∀ tier hd, tier < 256 →
+    hd ∈ (s.tier tier).chains.map (·.1) →
+    1 ≤ hd ∧ hd < (s.tier tier).filled ∧ (s.tailAt (Address.new hd tier)).isSome = true :=
+  fun tier hd => (h.tiers tier).headLive hd
 
 /-- The abstract map of a state: `m k = some v` iff some slot holds `k`'s tail and `v`. -/
 def Abs (U : Key → Prop) (s : Col) (m : Key → Option Val) : Prop :=
